@@ -365,7 +365,7 @@ class IndexedSet(MutableSet):
         "symmetric_difference_update(other) -> in-place XOR with other"
         if self is other:
             self.clear()
-        for val in other:
+        for val in IndexedSet(other):  # repeated items must toggle once
             if val in self:
                 self.discard(val)
             else:
